@@ -231,23 +231,21 @@ def addressEntry (m : Mem) : Fut → Except BuildError POp
   | .fut _ _ => .error .assertion
 
 /-- the `other` operand of `Future.add` / `RegFuture.add`:
-returns (mem, load cmds, store cmds, operand, temporary to release) -/
-def addOther (m : Mem) : Val → Except BuildError (Mem × List PCmd × List PCmd × POp × Option Nat)
-  | .lit v => .ok (m, [], [], .lit v, none)
+returns (mem, load cmds, operand, temporary to release). A Future operand is loaded into a
+new temporary and NOT stored back (fixes of F30). -/
+def addOther (m : Mem) : Val → Except BuildError (Mem × List PCmd × POp × Option Nat)
+  | .lit v => .ok (m, [], .lit v, none)
   | .reg h =>
     match handle m h with
     | .error e => .error e
-    | .ok (r, isRF) => if isRF then .error .typeError else .ok (m, [], [], .reg r, none)
+    | .ok (r, isRF) => if isRF then .error .typeError else .ok (m, [], .reg r, none)
   | .fut g =>
     match takeReg m with
     | .error e => .error e
     | .ok (m1, t) =>
       match accessCmds m1 false (R t) g with
       | .error e => .error e
-      | .ok (m2, ld) =>
-        match accessCmds m2 true (R t) g with
-        | .error e => .error e
-        | .ok (m3, st) => .ok (m3, ld, st, .reg (R t), some t)
+      | .ok (m2, ld) => .ok (m2, ld, .reg (R t), some t)
 
 def releaseOpt (m : Mem) : Option Nat → Except BuildError Mem
   | none => .ok m
@@ -270,13 +268,13 @@ def emitAddF (m : Mem) (f : Fut) (o : Val) (md : Option Int) : Except BuildError
       | .ok (m3, st) =>
         match addOther m3 o with
         | .error e => .error e
-        | .ok (m4, ld2, st2, oo, tmp2) =>
+        | .ok (m4, ld2, oo, tmp2) =>
           match release m4 t with
           | .error e => .error e
           | .ok m5 =>
             match releaseOpt m5 tmp2 with
             | .error e => .error e
-            | .ok m6 => .ok (m6, (ld ++ ld2) ++ [addInstr (R t) oo md] ++ (st ++ st2))
+            | .ok m6 => .ok (m6, (ld ++ ld2) ++ [addInstr (R t) oo md] ++ st)
 
 /-- `RegFuture.add(other, mod)` -/
 def emitAddR (m : Mem) (h : Nat) (o : Val) (md : Option Int) : Except BuildError (Mem × List PCmd) :=
@@ -286,10 +284,10 @@ def emitAddR (m : Mem) (h : Nat) (o : Val) (md : Option Int) : Except BuildError
     if !isRF then .error .typeError else
     match addOther m o with
     | .error e => .error e
-    | .ok (m1, ld2, st2, oo, tmp2) =>
+    | .ok (m1, ld2, oo, tmp2) =>
       match releaseOpt m1 tmp2 with
       | .error e => .error e
-      | .ok m2 => .ok (m2, ld2 ++ [addInstr r oo md] ++ st2)
+      | .ok m2 => .ok (m2, ld2 ++ [addInstr r oo md])
 
 /-! ## builder.py: conditions -/
 
